@@ -585,7 +585,10 @@ fn byte_at(bytes: &[u8], address: usize) -> Result<u8, RuntimeError> {
 impl PeekByte for VArray {
     fn peek_byte(&self, address: usize) -> Result<u8, RuntimeError> {
         let element_size = self.byte_size() / self.len();
-        debug_assert!(element_size > 0);
+        if element_size == 0 {
+            // an array of empty strings has no bytes to address
+            return Err(RuntimeError::SubscriptOutOfRange);
+        }
         let element_index = address / element_size;
         let offset = address % element_size;
         let element = self
@@ -681,7 +684,10 @@ impl PokeByte for Variant {
 impl PokeByte for VArray {
     fn poke_byte(&mut self, address: usize, value: u8) -> Result<(), RuntimeError> {
         let element_size = self.byte_size() / self.len();
-        debug_assert!(element_size > 0);
+        if element_size == 0 {
+            // an array of empty strings has no bytes to address
+            return Err(RuntimeError::SubscriptOutOfRange);
+        }
         let element_index = address / element_size;
         let offset = address % element_size;
         let element = self
